@@ -100,6 +100,9 @@ def gen(t, tier):
         kind = t.weighted([('handoff', 3), ('line', 4), ('write', 2), ('running', 3)])
         sc['interrupts'].append({'kind': kind, 'at': t.choice(1000), 'hard': bool(t.choice(2)),
                                  'after': bool(t.choice(2))})
+    # the seed entry may name a second grid of the caches first (another projected SRS, seeded too but not judged here): the
+    # coverage of every task has to come from the configured coverage, not from the one already transformed for the grid before
+    sc['second_grid'] = t.chance(0.3) if gk in ('custom', 'near') else False
     return sc
 
 
@@ -423,8 +426,9 @@ def run(sc, tape):
             # a seed entry may name several caches (one task each): the hand-off is recorded per cache, told apart by the
             # storage the task's tile manager writes to; the cache index is carried in the hundreds of the level
             k = 1 if '/c2_' in getattr(self.task.tile_manager.cache, 'cache_dir', '') else 0
-            for t in tiles:
-                handed.append((t[0], t[1], t[2] + 100 * k))
+            if self.task.md.get('grid_name') != 'g0':
+                for t in tiles:
+                    handed.append((t[0], t[1], t[2] + 100 * k))
             clock.now += sc['work']
             if self.progress_logger:
                 self.progress_logger.log_step(progress)
@@ -490,6 +494,11 @@ def run(sc, tape):
             conf = F.base_conf({'type': 'file', 'directory_layout': 'tc'}, meta_size=sc['meta_size'])
             conf['caches']['c1']['meta_buffer'] = sc.get('meta_buffer', 0)
             conf['grids']['g'] = dict(sc['grid'])
+            if sc.get('second_grid'):
+                conf['grids']['g0'] = {'srs': 'EPSG:25833', 'tile_size': [64, 64], 'bbox': [0, 5200000, 200000, 5400000],
+                                       'res': [2000, 1000, 500, 400, 300, 200], 'origin': 'll'}
+                conf['caches']['c1']['grids'] = ['g', 'g0']
+                probes['seed_entry_with_two_grids'] = 1
             conf['caches']['c2'] = copy.deepcopy(conf['caches']['c1'])
             pc = F.make_conf(conf)
             grid = pc.grids['g'].tile_grid()
@@ -501,7 +510,7 @@ def run(sc, tape):
                     f.write(text)
             lv_conf, levels = _levels(sc, grid.levels, grid)
             ncaches = sc.get('caches', 1)
-            sconf = {'caches': ['c1', 'c2'][:ncaches], 'grids': ['g']}
+            sconf = {'caches': ['c1', 'c2'][:ncaches], 'grids': ['g0', 'g'] if sc.get('second_grid') else ['g']}
             if isinstance(lv_conf, dict) and 'resolutions' in lv_conf:
                 sconf['resolutions'] = lv_conf['resolutions']
             elif lv_conf is not None:
